@@ -270,20 +270,15 @@ def _char_set(F, pred):
             if isinstance(k, int) and k not in consts:
                 consts.add(k)
                 todo |= {k - 1, k, k + 1}
-    # between breakpoints the predicate is constant; true pieces must be single points
-    out = set()
+    # between breakpoints the predicate is constant: a true witness whose neighbour is also true is a range
     pts = sorted(seen)
-    for i, w in enumerate(pts):
-        if seen[w]:
-            left = pts[i - 1] if i else None
-            right = pts[i + 1] if i + 1 < len(pts) else None
-            if (left is not None and left == w - 1 and seen[left]) or (right is not None and right == w + 1 and seen[right]):
-                return None if False else out.add(chr(w)) or out
-            out.add(chr(w))
-    # a true piece wider than one point would show as two adjacent true witnesses: reject ranges
+    out = set()
     for a, b in zip(pts, pts[1:]):
         if seen[a] and seen[b] and b == a + 1:
             return {"<range %d..%d>" % (a, b)}
+    for w in pts:
+        if seen[w]:
+            out.add(chr(w))
     return out
 
 
